@@ -392,4 +392,19 @@ theorem single_write_loses_bytes :
 theorem whole_buffer_invents_bytes :
     (Relay.run .writeAll .whole [9, 9, 9] [[1, 2, 3], [4]] [8, 8]).delivered ≠ flatten [[1, 2, 3], [4]] := by decide
 
+/-- T1.x `abandoned_read_consumes_nothing`: a read that cannot complete yet leaves the reader exactly as it was — so a
+caller that abandons it (a timeout, a losing `select!` branch) and reads again later, with whatever buffer size, loses
+nothing.  (What the `AsyncRead` side of a `Stream` must preserve; the `dest aread` cases compare it with the code.) -/
+theorem abandoned_read_consumes_nothing (r : RState) (n : Nat) (h : (r.read n).1 = .block) : (r.read n).2 = r := by
+  unfold RState.read at h ⊢
+  by_cases h1 : (r.eof && r.rbuf.isEmpty) = true
+  · simp [h1] at h
+  · by_cases h2 : (!r.rbuf.isEmpty) = true
+    · simp [h1, h2] at h
+    · simp only [h1, h2, if_false, Bool.false_eq_true] at h ⊢
+      cases hr : recvLoop n r.queue r.chanOpen with
+      | mk out rest =>
+        rw [hr] at h
+        cases out <;> simp_all
+
 end AnyTLS.C01
